@@ -14,6 +14,7 @@ import (
 	"sort"
 	"strconv"
 	"strings"
+	"sync"
 	"unicode/utf8"
 	"unsafe"
 
@@ -36,13 +37,13 @@ func ExternalNames() []string {
 
 func init() {
 	for k, v := range map[string]externalFn{
-		"fmt.Sprintf":  extSprintf,
-		"fmt.Errorf":   extErrorf,
-		"fmt.Println":  extNop,
-		"fmt.Printf":   extNop,
-		"fmt.Print":    extNop,
-		"fmt.Sprint":   extSprint,
-		"time.Now":     extTimeNow,
+		"fmt.Sprintf":           extSprintf,
+		"fmt.Errorf":            extErrorf,
+		"fmt.Println":           extNop,
+		"fmt.Printf":            extNop,
+		"fmt.Print":             extNop,
+		"fmt.Sprint":            extSprint,
+		"time.Now":              extTimeNow,
 		"(time.Time).UnixMilli": extTimeUnix,
 		"(time.Time).UnixNano":  extTimeUnix,
 		"(time.Time).Unix":      extTimeUnix,
@@ -72,14 +73,14 @@ func init() {
 			}
 			return out
 		},
-		"strings.Contains":      func(fr *frame, a []value) value { return strings.Contains(concStr(fr, a[0]), concStr(fr, a[1])) },
-		"strings.HasPrefix":     func(fr *frame, a []value) value { return strings.HasPrefix(concStr(fr, a[0]), concStr(fr, a[1])) },
-		"strings.HasSuffix":     func(fr *frame, a []value) value { return strings.HasSuffix(concStr(fr, a[0]), concStr(fr, a[1])) },
-		"strings.Index":         func(fr *frame, a []value) value { return strings.Index(concStr(fr, a[0]), concStr(fr, a[1])) },
-		"strings.IndexByte":     func(fr *frame, a []value) value { return strings.IndexByte(concStr(fr, a[0]), a[1].(byte)) },
-		"strings.Count":         func(fr *frame, a []value) value { return strings.Count(concStr(fr, a[0]), concStr(fr, a[1])) },
-		"strings.ToLower":       func(fr *frame, a []value) value { return strings.ToLower(concStr(fr, a[0])) },
-		"strings.ToUpper":       func(fr *frame, a []value) value { return strings.ToUpper(concStr(fr, a[0])) },
+		"strings.Contains":  func(fr *frame, a []value) value { return strings.Contains(concStr(fr, a[0]), concStr(fr, a[1])) },
+		"strings.HasPrefix": func(fr *frame, a []value) value { return strings.HasPrefix(concStr(fr, a[0]), concStr(fr, a[1])) },
+		"strings.HasSuffix": func(fr *frame, a []value) value { return strings.HasSuffix(concStr(fr, a[0]), concStr(fr, a[1])) },
+		"strings.Index":     func(fr *frame, a []value) value { return strings.Index(concStr(fr, a[0]), concStr(fr, a[1])) },
+		"strings.IndexByte": func(fr *frame, a []value) value { return strings.IndexByte(concStr(fr, a[0]), a[1].(byte)) },
+		"strings.Count":     func(fr *frame, a []value) value { return strings.Count(concStr(fr, a[0]), concStr(fr, a[1])) },
+		"strings.ToLower":   func(fr *frame, a []value) value { return strings.ToLower(concStr(fr, a[0])) },
+		"strings.ToUpper":   func(fr *frame, a []value) value { return strings.ToUpper(concStr(fr, a[0])) },
 		"strings.Replace": func(fr *frame, a []value) value {
 			return strings.Replace(concStr(fr, a[0]), concStr(fr, a[1]), concStr(fr, a[2]), a[3].(int))
 		},
@@ -174,28 +175,28 @@ func init() {
 		"sync/atomic.AddUint32":             extAtomicAdd,
 		"sync/atomic.AddUint64":             extAtomicAdd,
 
-		"regexp.Compile":                              extRegexpCompile,
-		"regexp.MustCompile":                          extRegexpMustCompile,
-		"(*regexp.Regexp).FindStringSubmatchIndex":    extRegexpFSSI,
-		"(*regexp.Regexp).MatchString":                extRegexpMatchString,
-		"(*regexp.Regexp).String":                     extRegexpString,
-		"reflect.ValueOf":                             extReflectValueOf,
-		"(reflect.Value).Pointer":                     extReflectPointer,
-		"internal/bytealg.IndexByteString":            func(fr *frame, a []value) value { return strings.IndexByte(concStr(fr, a[0]), a[1].(byte)) },
-		"internal/bytealg.IndexByte":                  extIndexByte,
-		"internal/bytealg.CountString":                func(fr *frame, a []value) value { return strings.Count(concStr(fr, a[0]), string([]byte{a[1].(byte)})) },
-		"internal/bytealg.Count":                      extCountBytes,
-		"internal/bytealg.Equal":                      extBytesEqual,
-		"internal/bytealg.IndexString":                func(fr *frame, a []value) value { return strings.Index(concStr(fr, a[0]), concStr(fr, a[1])) },
-		"internal/stringslite.Index":                  func(fr *frame, a []value) value { return strings.Index(concStr(fr, a[0]), concStr(fr, a[1])) },
-		"internal/stringslite.IndexByte":              func(fr *frame, a []value) value { return strings.IndexByte(concStr(fr, a[0]), a[1].(byte)) },
-		"internal/stringslite.HasPrefix":              func(fr *frame, a []value) value { return strings.HasPrefix(concStr(fr, a[0]), concStr(fr, a[1])) },
-		"internal/stringslite.HasSuffix":              func(fr *frame, a []value) value { return strings.HasSuffix(concStr(fr, a[0]), concStr(fr, a[1])) },
-		"internal/abi.NoEscape":                       func(fr *frame, a []value) value { return a[0] },
-		"runtime.GC":                                  extNop,
-		"runtime.Gosched":                             extNop,
-		"runtime.KeepAlive":                           extNop,
-		"os.Exit":                                     func(fr *frame, a []value) value { fr.i.px.abort("unsupported", "os.Exit"); return nil },
+		"regexp.Compile":                           extRegexpCompile,
+		"regexp.MustCompile":                       extRegexpMustCompile,
+		"(*regexp.Regexp).FindStringSubmatchIndex": extRegexpFSSI,
+		"(*regexp.Regexp).MatchString":             extRegexpMatchString,
+		"(*regexp.Regexp).String":                  extRegexpString,
+		"reflect.ValueOf":                          extReflectValueOf,
+		"(reflect.Value).Pointer":                  extReflectPointer,
+		"internal/bytealg.IndexByteString":         func(fr *frame, a []value) value { return strings.IndexByte(concStr(fr, a[0]), a[1].(byte)) },
+		"internal/bytealg.IndexByte":               extIndexByte,
+		"internal/bytealg.CountString":             func(fr *frame, a []value) value { return strings.Count(concStr(fr, a[0]), string([]byte{a[1].(byte)})) },
+		"internal/bytealg.Count":                   extCountBytes,
+		"internal/bytealg.Equal":                   extBytesEqual,
+		"internal/bytealg.IndexString":             func(fr *frame, a []value) value { return strings.Index(concStr(fr, a[0]), concStr(fr, a[1])) },
+		"internal/stringslite.Index":               func(fr *frame, a []value) value { return strings.Index(concStr(fr, a[0]), concStr(fr, a[1])) },
+		"internal/stringslite.IndexByte":           func(fr *frame, a []value) value { return strings.IndexByte(concStr(fr, a[0]), a[1].(byte)) },
+		"internal/stringslite.HasPrefix":           func(fr *frame, a []value) value { return strings.HasPrefix(concStr(fr, a[0]), concStr(fr, a[1])) },
+		"internal/stringslite.HasSuffix":           func(fr *frame, a []value) value { return strings.HasSuffix(concStr(fr, a[0]), concStr(fr, a[1])) },
+		"internal/abi.NoEscape":                    func(fr *frame, a []value) value { return a[0] },
+		"runtime.GC":                               extNop,
+		"runtime.Gosched":                          extNop,
+		"runtime.KeepAlive":                        extNop,
+		"os.Exit":                                  func(fr *frame, a []value) value { fr.i.px.abort("unsupported", "os.Exit"); return nil },
 
 		"unicode/utf8.DecodeRune":         extDecodeRune,
 		"unicode/utf8.DecodeRuneInString": extDecodeRuneInString,
@@ -287,7 +288,7 @@ func (i *interpreter) newError(msg value) value {
 	}
 	t := pkg.Type("errorString").Object().Type()
 	var cell value = structure{msg}
-	return iface{t: types.NewPointer(t), v: &cell}
+	return iface{t: ptrTo(t), v: &cell}
 }
 
 // goValue converts a concrete interp scalar to a Go value for fmt.
@@ -1078,6 +1079,16 @@ func extPoolPut(fr *frame, args []value) value {
 	}
 	px.pools[p] = append(px.pools[p], args[1])
 	return nil
+}
+
+var ptrTypes sync.Map // types.Type -> *types.Pointer (one object per element type: the method-set hasher memoises by identity)
+
+func ptrTo(t types.Type) types.Type {
+	if p, ok := ptrTypes.Load(t); ok {
+		return p.(types.Type)
+	}
+	p, _ := ptrTypes.LoadOrStore(t, types.NewPointer(t))
+	return p.(types.Type)
 }
 
 func extAtomicValueLoad(fr *frame, args []value) value {
